@@ -19,3 +19,17 @@ fn k_fixed_builder(depth: u8, cap: usize, m: usize) {
   if m >= 2 { kani::cover!(p1 < p0, "unsorted pushes"); kani::cover!(p1 == p0, "duplicate push"); }
   p_fixed_builder(depth, is_full, cap, m, p0, p1, p2, p3, c);
 }
+
+/// Model of `slice::sort_unstable` (environment: std) for the fixed-depth builder harnesses: an insertion sort on at most 4
+/// elements, the bound being asserted. The std implementation (pattern-defeating quicksort + recursion) is out of reach of the
+/// symbolic execution even for 2 elements (symbolic length).
+pub(crate) fn model_sort<T: Ord>(v: &mut [T]) {
+  assert!(v.len() <= 4, "verif model: sort of more than 4 elements");
+  let n = v.len();
+  let mut i = 1;
+  while i < n {
+    let mut j = i;
+    while j > 0 && v[j - 1] > v[j] { v.swap(j - 1, j); j -= 1; }
+    i += 1;
+  }
+}
